@@ -38,6 +38,8 @@ type IDPCfg struct {
 	CacheDuration string      `json:"cacheDuration,omitempty"`
 	ErrorURL      string      `json:"errorURL,omitempty"`
 	NoIDPConfigMD bool        `json:"-"`
+	// the first response signing key version comes with a certificate that is outside its validity period at any simulated instant after 2001
+	ExpiredRespCert bool `json:"expiredRespCert,omitempty"`
 }
 
 type ACSCfg struct {
@@ -207,6 +209,8 @@ type MsgSpec struct {
 	FaultAt   int    `json:"faultAt,omitempty"`
 	FaultKind string `json:"faultKind,omitempty"`
 
+	DeadlineNs int64 `json:"deadlineNs,omitempty"` // server-side deadline of the request context (simulated clock)
+
 	// transport faults
 	BodyFault   string `json:"bodyFault,omitempty"` // "", short, err, eof
 	BodyOff     int    `json:"bodyOff,omitempty"`
@@ -229,7 +233,7 @@ type MsgSpec struct {
 }
 
 type Step struct {
-	K string `json:"k"` // send | resume | finish | until | pair | advance | mutate | restart | heal | drain
+	K string `json:"k"` // send | resume | finish | until | cancel | pair | advance | mutate | restart | heal | drain
 
 	Msg *MsgSpec `json:"msg,omitempty"`
 
